@@ -21,7 +21,7 @@ ENV = dict(os.environ)
 ENV.update({"CARGO_NET_OFFLINE": "true", "CARGO_TERM_COLOR": "never", "RUST_BACKTRACE": "0"})
 ENV.pop("RUSTFLAGS", None)
 
-QUICK_CAP = int(os.environ.get("VERIF_QUICK_CAP", "600"))      # seconds per harness, quick tier
+QUICK_CAP = int(os.environ.get("VERIF_QUICK_CAP", "1500"))      # seconds per harness, quick tier
 THOROUGH_CAP = int(os.environ.get("VERIF_THOROUGH_CAP", "3600"))
 MEM_GB = int(os.environ.get("VERIF_MEM_GB", "20"))
 JOBS = int(os.environ.get("VERIF_JOBS", "12"))
